@@ -256,10 +256,26 @@ C07_DataTop(c, E, l) ==
 \* all other data-cell edges carry the user's borders
 IsDocBottomRow(E, l) == l = LastOf(TableRowsOn(E, PageCount(E)))
 IsPageBottomRow(E, l) == l = LastOf(TableRowsOn(E, E[l].p))
+\* c.utopm / c.ubotm: the user's border_top / border_bottom of every displayed cell, by ORIGINAL row
+\* (scalar, per-column and per-cell shapes are all expanded by the harness from its own input)
+UserTop(c, r) == IF "utopm" \in DOMAIN c THEN c.utopm[r] ELSE [k \in 1..64 |-> c.utop]
+UserBot(c, r) == IF "ubotm" \in DOMAIN c THEN c.ubotm[r] ELSE [k \in 1..64 |-> c.ubot]
+EqUpTo(obs, want) == \A k \in 1..Len(obs) : obs[k] = want[k]
+\* the same, allowing the recorded deviation: when border_top is given per column or per cell, the first
+\* data row of a page takes in column k the k-th entry of the first row of border_top as the caller wrote it
+\* (original column positions, before page_by/subline_by columns are removed) when that entry is not empty,
+\* instead of rtf_body.border_first
+C07_DataTopModuloKnown(c, E, l) ==
+  (l <= Len(E) /\ E[l].k = "data" /\ FirstDataOfPage(E, l) /\ ~(c.haspb /\ c.spanning /\ c.nhdr = 0)) =>
+     LET want == IF E[l].p = 1 /\ c.nhdr = 0 THEN c.pagefirst ELSE c.bodyfirst IN
+       \A k \in 1..Len(E[l].top) :
+          \/ E[l].top[k] = want
+          \/ (c.ushape # "scalar" /\ k <= Len(c.utop0raw) /\ c.utop0raw[k] # "" /\ E[l].top[k] = c.utop0raw[k] /\ ~(E[l].p = 1 /\ c.nhdr = 0))
+
 C07_Interior(c, E, l) ==
-  (l <= Len(E) /\ E[l].k = "data") =>
-     /\ (~FirstDataOfPage(E, l) => AllEq(E[l].top, c.utop))
-     /\ (~IsPageBottomRow(E, l) => AllEq(E[l].bot, c.ubot))
+  (l <= Len(E) /\ E[l].k = "data" /\ E[l].r \in 1..c.n) =>
+     /\ (~FirstDataOfPage(E, l) => EqUpTo(E[l].top, UserTop(c, E[l].r)))
+     /\ (~IsPageBottomRow(E, l) => EqUpTo(E[l].bot, UserBot(c, E[l].r)))
      /\ AllEq(E[l].lft, c.uleft)
      /\ E[l].rgt[Len(E[l].rgt)] = c.uright
 
